@@ -1,17 +1,499 @@
-(* Proofs about Model/Section.v (C15): the screen is the stack of the sections' contents. *)
+(* Proofs about Model/Section.v (C15): the screen is the stack of the sections' VISIBLE contents - the texts are markup,
+   the sections are indented.
+   0   the terminal ignores SGR sequences; the event scanner of the decorated bytes against Markup.strip_sgr
+   1-3 the formatter on lines put together: the tag scanner on a concatenation, "fine" messages (no ESC, no escaped tag,
+       no backslash at the end), the undecorated rendering of a concatenation, the decorated one against it
+   4-6 list facts; the formatter between two operations, good lines and their visible text; rows
+   7   the invariant: screen = stack, every section's row count = rows of its visible content, the style stack is empty
+   8-11 the theorems of Props/C15.v *)
 From Coq Require Import Lia Arith.
-From Clikit Require Import Base.Prelude Base.Res Base.Term Model.Section Proofs.TermLemmas.
+From Clikit Require Import Base.Prelude Base.Res Base.Term Model.Conv Model.Markup Model.Section
+  Proofs.TermLemmas Proofs.MarkupLemmas Proofs.LiteralLemmas.
+
+(* ---------- 0. the terminal ignores SGR; the event scanner against strip_sgr ---------- *)
+Definition is_sgr (e : emit) : bool := match e with Sgr _ => true | _ => false end.
+Definition drop_sgr (es : list emit) : list emit := filter (fun e => negb (is_sgr e)) es.
+Lemma feed_drop_sgr w es : forall t, feed w t es = feed w t (drop_sgr es).
+Proof.
+  induction es as [|e r IH]; intros t; [reflexivity|]. unfold feed in *. cbn [fold_left drop_sgr filter].
+  destruct e; cbn [is_sgr negb fold_left]; try apply IH.
+Qed.
+Lemma drop_sgr_app a b : drop_sgr (a ++ b) = drop_sgr a ++ drop_sgr b.
+Proof. unfold drop_sgr. apply filter_app. Qed.
+Lemma emits_of_text_app a b : emits_of_text (a ++ b) = emits_of_text a ++ emits_of_text b.
+Proof. unfold emits_of_text. apply map_app. Qed.
+Lemma drop_sgr_text s : drop_sgr (emits_of_text s) = emits_of_text s.
+Proof.
+  unfold drop_sgr, emits_of_text. induction s as [|c s IH]; [reflexivity|]. cbn [map filter].
+  destruct (N.eqb c LF); cbn [is_sgr negb]; now rewrite IH.
+Qed.
+
+Lemma ansi_step_strip e o g c : drop_sgr e = emits_of_text o ->
+  snd (ansi_step (e, g) c) = snd (strip_step (o, g) c) /\
+  drop_sgr (fst (ansi_step (e, g) c)) = emits_of_text (fst (strip_step (o, g) c)).
+Proof.
+  intros H. unfold ansi_step, strip_step.
+  destruct g as [| |p]; cbn [pending_of].
+  - destruct (N.eqb c ESC); cbn [fst snd]; split; try reflexivity; now rewrite drop_sgr_app, drop_sgr_text, H, !emits_of_text_app.
+  - destruct (N.eqb c 91); [cbn; auto|].
+    destruct (N.eqb c ESC); cbn [fst snd]; split; try reflexivity; now rewrite drop_sgr_app, drop_sgr_text, H, !emits_of_text_app.
+  - destruct (is_digit c || N.eqb c SEMI); [cbn; auto|].
+    destruct (N.eqb c 109).
+    + cbn [fst snd]. split; [reflexivity|]. rewrite drop_sgr_app. cbn. now rewrite app_nil_r.
+    + destruct (N.eqb c ESC); cbn [fst snd]; split; try reflexivity; now rewrite drop_sgr_app, drop_sgr_text, H, !emits_of_text_app.
+Qed.
+Lemma ansi_fold_strip s : forall e o g, drop_sgr e = emits_of_text o ->
+  snd (fold_left ansi_step s (e, g)) = snd (fold_left strip_step s (o, g)) /\
+  drop_sgr (fst (fold_left ansi_step s (e, g))) = emits_of_text (fst (fold_left strip_step s (o, g))).
+Proof.
+  induction s as [|c s IH]; intros e o g H; cbn [fold_left]; [auto|].
+  destruct (ansi_step_strip e o g c H) as [H1 H2].
+  destruct (ansi_step (e, g) c) as [e' g1], (strip_step (o, g) c) as [o' g2]. cbn [fst snd] in *. subst g2. apply IH, H2.
+Qed.
+(* what the terminal makes of the decorated bytes is what it makes of the text under the SGR sequences *)
+Lemma drop_sgr_ansi s : drop_sgr (emits_of_ansi s) = emits_of_text (strip_sgr s).
+Proof.
+  unfold emits_of_ansi, ansi_end, strip_sgr, strip_end.
+  destruct (ansi_fold_strip s [] [] GNone eq_refl) as [H1 H2].
+  rewrite drop_sgr_app, drop_sgr_text, emits_of_text_app, H1, H2. reflexivity.
+Qed.
+Lemma feed_ansi w t s : feed w t (emits_of_ansi s) = feed w t (emits_of_text (strip_sgr s)).
+Proof. now rewrite feed_drop_sgr, drop_sgr_ansi. Qed.
+
+(* ---------- 1. the scanner on a concatenation ---------- *)
+(* the scanner state reached from a state with finished segments d0 and pending text c0 instead of the initial one *)
+Definition graft (d0 : list (str * tag)) (c0 : str) (st : lexst) : lexst :=
+  match l_done st with
+  | [] => {| l_done := d0; l_cur := c0 ++ l_cur st; l_cand := l_cand st |}
+  | (p, t) :: r => {| l_done := d0 ++ (c0 ++ p, t) :: r; l_cur := l_cur st; l_cand := l_cand st |}
+  end.
+Lemma lex_step_graft d0 c0 st c : lex_step (graft d0 c0 st) c = graft d0 c0 (lex_step st c).
+Proof.
+  destruct st as [done cur cand]. unfold lex_step, graft. cbn [l_done l_cur l_cand].
+  destruct done as [|[p t] r]; cbn [l_done l_cur l_cand];
+    (destruct (N.eqb c LT); [cbn [l_done l_cur l_cand app]; now rewrite <- ?app_assoc|]);
+    destruct cand as [| | |cl nm]; cbn [l_done l_cur l_cand raw_of app];
+    repeat match goal with |- context [if ?b then _ else _] => destruct b end;
+    cbn [l_done l_cur l_cand app]; rewrite <- ?app_assoc; reflexivity.
+Qed.
+Lemma fold_graft d0 c0 s : forall st, fold_left lex_step s (graft d0 c0 st) = graft d0 c0 (fold_left lex_step s st).
+Proof. induction s as [|c s IH]; intros st; cbn [fold_left]; [reflexivity|]. now rewrite lex_step_graft, IH. Qed.
+
+(* a message after which the scanner has no tag candidate pending *)
+Definition closed (a : str) : Prop := l_cand (fold_left lex_step a lex_init) = CText.
+Definition lex_cat (la lb : list (str * tag) * str) : list (str * tag) * str :=
+  match fst lb with
+  | [] => (fst la, snd la ++ snd lb)
+  | (p, t) :: r => (fst la ++ (snd la ++ p, t) :: r, snd lb)
+  end.
+Lemma lex_app a b : closed a -> lex (a ++ b) = lex_cat (lex a) (lex b).
+Proof.
+  unfold closed, lex. intros Hc. rewrite fold_left_app.
+  set (sa := fold_left lex_step a lex_init) in *.
+  assert (sa = graft (l_done sa) (l_cur sa) lex_init) as E.
+  { destruct sa as [d c k]. cbn in Hc. subst k. unfold graft, lex_init. cbn. now rewrite app_nil_r. }
+  rewrite E at 1. rewrite fold_graft. set (sb := fold_left lex_step b lex_init).
+  unfold lex_cat, lex_end, graft. rewrite Hc. cbn [raw_of fst snd]. rewrite app_nil_r.
+  destruct (l_done sb) as [|[p t] r]; cbn [l_done l_cur l_cand fst snd]; [now rewrite app_assoc|reflexivity].
+Qed.
+
+Lemma lex_step_nl st : lex_step st NL = {| l_done := l_done st; l_cur := l_cur st ++ raw_of (l_cand st) ++ [NL]; l_cand := CText |}.
+Proof. unfold lex_step. destruct (l_cand st); reflexivity. Qed.
+Lemma lex_nl a : closed (a ++ [NL]) /\ lex (a ++ [NL]) = (fst (lex a), snd (lex a) ++ [NL]).
+Proof.
+  unfold closed, lex. rewrite fold_left_app. cbn [fold_left]. rewrite lex_step_nl. split; [reflexivity|].
+  unfold lex_end. cbn [l_done l_cur l_cand raw_of fst snd]. now rewrite app_nil_r, app_assoc.
+Qed.
+Lemma blanks_no_lt n : no_lt (blanks n).
+Proof. unfold blanks. induction n; cbn; [constructor|constructor; [discriminate|assumption]]. Qed.
+Lemma lex_blanks n : closed (blanks n) /\ lex (blanks n) = ([], blanks n).
+Proof.
+  split; [|apply lex_no_tag, blanks_no_lt]. unfold closed, lex_init. now rewrite (lex_text _ (blanks_no_lt n)).
+Qed.
+Lemma closed_nil : closed []. Proof. reflexivity. Qed.
+
+(* the raw text of a tag consists of '<', '/', '>' and tag characters *)
+Definition tagch (c : N) : Prop := c = LT \/ c = SLASH \/ c = GT \/ tag_char c = true.
+Definition rawsP (st : lexst) : Prop :=
+  Forall (fun sg : str * tag => Forall tagch (raw_text (snd sg))) (l_done st) /\ Forall tagch (raw_of (l_cand st)).
+Lemma lex_step_raws st c : rawsP st -> rawsP (lex_step st c).
+Proof.
+  intros [Hd Hk]. unfold lex_step, rawsP.
+  assert (tagch LT) as HLT by (left; reflexivity).
+  assert (tagch SLASH) as HSL by (right; left; reflexivity).
+  assert (tagch GT) as HGT by (right; right; left; reflexivity).
+  assert (forall x, tag_char x = true -> tagch x) as HTC by (intros x Hx; right; right; right; exact Hx).
+  assert (forall x, tag_start x = true -> tagch x) as HTS by (intros x Hx; apply HTC, tag_start_char, Hx).
+  destruct (N.eqb_spec c LT) as [->|Hlt]; cbn [l_done l_cand raw_of]; [split; [exact Hd|auto]|].
+  destruct (l_cand st) as [| | |cl nm] eqn:Ek; cbn [l_done l_cand raw_of].
+  - split; [exact Hd|constructor].
+  - destruct (N.eqb_spec c SLASH) as [->|]; cbn [l_done l_cand raw_of]; [split; [exact Hd|auto]|].
+    destruct (tag_start c) eqn:Ec; cbn [l_done l_cand raw_of app]; (split; [exact Hd|]); auto.
+  - destruct (N.eqb_spec c GT) as [->|]; cbn [l_done l_cand raw_of].
+    + split; [|constructor]. apply Forall_app. split; [exact Hd|]. constructor; [|constructor]. cbn [snd raw_text app]. auto.
+    + destruct (tag_start c) eqn:Ec; cbn [l_done l_cand raw_of app]; (split; [exact Hd|]); auto.
+  - destruct (N.eqb_spec c GT) as [->|]; cbn [l_done l_cand raw_of].
+    + split; [|constructor]. apply Forall_app. split; [exact Hd|]. constructor; [|constructor]. cbn [snd raw_text].
+      apply Forall_app. split; [exact Hk|auto].
+    + destruct (tag_char c) eqn:Ec; cbn [l_done l_cand raw_of app]; (split; [exact Hd|]); [|constructor].
+      cbn [raw_of] in Hk. inversion Hk as [|? ? H1 H2]; subst. constructor; [exact H1|].
+      rewrite app_assoc. apply Forall_app. split; [exact H2|auto].
+Qed.
+Lemma tagch_good c : tagch c -> good c.
+Proof. intros [->|[->|[->|H]]]; [split; discriminate..|apply tag_char_good, H]. Qed.
+Lemma lex_raws_good m : Forall (fun sg : str * tag => Forall good (raw_text (snd sg))) (fst (lex m)).
+Proof.
+  unfold lex, lex_end. cbn [fst].
+  assert (forall st, rawsP st -> rawsP (fold_left lex_step m st)) as H.
+  { induction m as [|c r IH]; intros st Hst; cbn [fold_left]; [exact Hst|]. apply IH, lex_step_raws, Hst. }
+  destruct (H lex_init) as [H1 _]; [split; cbn; constructor|].
+  eapply Forall_impl; [|exact H1]. intros sg Hsg. eapply Forall_impl; [|exact Hsg]. exact tagch_good.
+Qed.
+
+(* ---------- 2. fine messages: no ESC, no escaped tag, no backslash at the end ---------- *)
+Definition mfine (m : str) : Prop :=
+  no_esc m /\ ends_with_bsl m = false /\ Forall (fun sg : str * tag => ends_with_bsl (fst sg) = false) (fst (lex m)).
+Lemma fineb_mfine m : fineb m = true -> mfine m.
+Proof.
+  unfold fineb. intros H. apply Bool.andb_true_iff in H as [H H3]. apply Bool.andb_true_iff in H as [H1 H2].
+  repeat split.
+  - rewrite forallb_forall in H1. apply Forall_forall. intros c Hc Ec. specialize (H1 c Hc). rewrite Ec in H1. discriminate.
+  - now destruct (ends_with_bsl m).
+  - rewrite forallb_forall in H3. apply Forall_forall. intros sg Hsg. specialize (H3 sg Hsg). now destruct (ends_with_bsl (fst sg)).
+Qed.
+Lemma mfine_segs m : mfine m -> Forall seg_fine (fst (lex m)) /\ no_esc (snd (lex m)).
+Proof.
+  intros (H1 & H2 & H3). destruct (lex_P (fun c => c <> ESC) m H1) as [HP HT]. split; [|exact HT].
+  pose proof (lex_raws_good m) as HR.
+  rewrite Forall_forall in *. intros sg Hsg. destruct (HP sg Hsg) as [Hpre _]. repeat split; auto.
+Qed.
+Lemma mfine_tail m : mfine m -> ends_with_bsl (snd (lex m)) = false.
+Proof.
+  intros (_ & H2 & _). pose proof (lex_lossless m) as HL. destruct (snd (lex m)) as [|c t] eqn:E; [reflexivity|].
+  rewrite <- HL, ends_app in H2. exact H2.
+Qed.
+Lemma mfine_nil : mfine []. Proof. repeat split; constructor. Qed.
+Lemma mfine_app a b : closed a -> mfine a -> mfine b -> mfine (a ++ b).
+Proof.
+  intros Hc Ha Hb. pose proof (mfine_tail a Ha) as Ht. destruct Ha as (A1 & A2 & A3), Hb as (B1 & B2 & B3). repeat split.
+  - apply Forall_app. split; assumption.
+  - rewrite ends_app. destruct b; assumption.
+  - rewrite (lex_app a b Hc). unfold lex_cat. destruct (fst (lex b)) as [|[p t] r]; cbn [fst]; [exact A3|].
+    apply Forall_app. split; [exact A3|]. inversion B3 as [|? ? Hp Hr]; subst. constructor; [|exact Hr].
+    cbn [fst] in *. rewrite ends_app. destruct p; assumption.
+Qed.
+Lemma mfine_nl a : mfine a -> mfine (a ++ [NL]).
+Proof.
+  intros (A1 & A2 & A3). destruct (lex_nl a) as [_ E]. repeat split.
+  - apply Forall_app. split; [exact A1|]. constructor; [discriminate|constructor].
+  - now rewrite ends_app.
+  - rewrite E. exact A3.
+Qed.
+Lemma blanks_no_bsl n : no_bsl (blanks n).
+Proof. unfold blanks. induction n; cbn; [constructor|constructor; [discriminate|assumption]]. Qed.
+Lemma blanks_no_esc n : no_esc (blanks n).
+Proof. unfold blanks. induction n; cbn; [constructor|constructor; [discriminate|assumption]]. Qed.
+Lemma mfine_blanks n : mfine (blanks n).
+Proof.
+  destruct (lex_blanks n) as [_ E]. repeat split.
+  - apply blanks_no_esc.
+  - apply no_bsl_ends, blanks_no_bsl.
+  - rewrite E. constructor.
+Qed.
+
+(* ---------- 3. the undecorated rendering, piece by piece ---------- *)
+Lemma colorize_plain_eq sty sk m :
+  colorize sty false sk m =
+  match run_segs sty false (ends_with_bsl m) true (fst (lex m)) sk [] false with
+  | Ok (sk', out, _) => Ok (sk', unescape (out ++ snd (lex m)))
+  | Err e => Err e
+  end.
+Proof.
+  unfold colorize. pose proof (lex_lossless m) as HL. destruct (lex m) as [segs tail]. cbn [fst snd] in *.
+  destruct segs as [|sg segs'] eqn:ES.
+  - cbn [run_segs flat_map app] in *. now subst tail.
+  - rewrite <- ES. destruct (run_segs sty false (ends_with_bsl m) true segs sk [] false) as [[[sk' out] le]|e]; cbn [bind]; [|reflexivity].
+    rewrite !apply_cur_false, removelast_lastchar. destruct le; reflexivity.
+Qed.
+
+Lemma run_segs_prefix sty col at0 : forall segs first sk o out le,
+  run_segs sty col at0 first segs sk (o ++ out) le =
+  match run_segs sty col at0 first segs sk out le with Ok (s, r, l) => Ok (s, o ++ r, l) | Err e => Err e end.
+Proof.
+  induction segs as [|[pre t] r IH]; intros first sk o out le; cbn [run_segs]; [reflexivity|].
+  destruct (do_tag sty col _ t sk) as [x|e]; cbn [bind]; [|reflexivity]. rewrite <- app_assoc. apply IH.
+Qed.
+Lemma run_segs_le sty col at0 first sg segs sk out le le' :
+  run_segs sty col at0 first (sg :: segs) sk out le = run_segs sty col at0 first (sg :: segs) sk out le'.
+Proof. destruct sg. reflexivity. Qed.
+Lemma run_segs_graft sty f (c0 p : list N) t (r : list (list N * tag)) sk out le : ends_with_bsl c0 = false ->
+  run_segs sty false false f ((c0 ++ p, t) :: r) sk out le
+  = run_segs sty false false false ((p, t) :: r) sk (out ++ c0) le.
+Proof.
+  intros Hc. cbn [run_segs]. rewrite !esc_flag, ends_app.
+  assert ((match p with [] => ends_with_bsl c0 | _ :: _ => ends_with_bsl p end) = ends_with_bsl p) as -> by (destruct p; [exact Hc|reflexivity]).
+  destruct (do_tag sty false (ends_with_bsl p) t sk) as [x|e]; cbn [bind]; [|reflexivity].
+  rewrite !apply_cur_false, <- !app_assoc. reflexivity.
+Qed.
+
+Lemma do_tag_plain_out sty esc raw cl nm sk sk' x :
+  do_tag sty false esc (Tag raw cl nm) sk = Ok (sk', x) -> x = [] \/ x = raw.
+Proof.
+  unfold do_tag. rewrite apply_cur_false. destruct esc; [intros H; inversion H; auto|].
+  destruct (cl && match nm with [] => true | _ => false end); [intros H; inversion H; auto|].
+  destruct (resolve sty (py_lower nm)) as [[st|]|e]; cbn [bind]; try discriminate.
+  - destruct cl; [destruct (pop_style st sk); cbn [bind]; try discriminate|]; intros H; inversion H; auto.
+  - intros H; inversion H; auto.
+Qed.
+Lemma run_segs_ends sty : forall segs f sk out le s r l,
+  Forall seg_fine segs -> ends_with_bsl out = false ->
+  run_segs sty false false f segs sk out le = Ok (s, r, l) -> ends_with_bsl r = false.
+Proof.
+  induction segs as [|[pre [raw cl nm]] rest IH]; intros f sk out le s r l Hs Ho H; cbn [run_segs] in H.
+  - inversion H; subst. exact Ho.
+  - inversion Hs as [|? ? (Hpre & Epre & Hraw) Hr]; subst. cbn [fst snd raw_text] in *.
+    destruct (do_tag sty false _ (Tag raw cl nm) sk) as [[sk' x]|e] eqn:ET; cbn [bind fst snd] in H; [|discriminate].
+    apply (IH _ _ _ _ _ _ _ Hr) in H; [exact H|]. rewrite apply_cur_false.
+    apply ends_app_false; [exact Ho|]. apply ends_app_false; [exact Epre|].
+    destruct (do_tag_plain_out _ _ _ _ _ _ _ _ ET) as [->| ->]; [reflexivity|apply no_bsl_ends, good_no_bsl, Hraw].
+Qed.
+Lemma run_segs_P sty (P : N -> Prop) : forall segs f at0 sk out le s r l,
+  Forall (segP P) segs -> Forall P out ->
+  run_segs sty false at0 f segs sk out le = Ok (s, r, l) -> Forall P r.
+Proof.
+  induction segs as [|[pre [raw cl nm]] rest IH]; intros f at0 sk out le s r l Hs Ho H; cbn [run_segs] in H.
+  - inversion H; subst. exact Ho.
+  - inversion Hs as [|? ? [Hpre Hraw] Hr]; subst. cbn [fst snd tagP] in *.
+    destruct (do_tag sty false _ (Tag raw cl nm) sk) as [[sk' x]|e] eqn:ET; cbn [bind fst snd] in H; [|discriminate].
+    apply (IH _ _ _ _ _ _ _ _ Hr) in H; [exact H|]. rewrite apply_cur_false.
+    apply Forall_app. split; [exact Ho|]. apply Forall_app. split; [exact Hpre|].
+    destruct (do_tag_plain_out _ _ _ _ _ _ _ _ ET) as [->| ->]; [constructor|exact Hraw].
+Qed.
+(* the undecorated rendering only rearranges characters of the message *)
+Lemma colorize_plain_P sty (P : N -> Prop) sk m sk' o : Forall P m -> colorize sty false sk m = Ok (sk', o) -> Forall P o.
+Proof.
+  intros Hm. rewrite colorize_plain_eq. destruct (lex_P P m Hm) as [Hs Ht].
+  destruct (run_segs sty false (ends_with_bsl m) true (fst (lex m)) sk [] false) as [[[s r] l]|e] eqn:ER; [|discriminate].
+  intros H. inversion H; subst. apply unescape_P, Forall_app. split; [|exact Ht].
+  apply (run_segs_P sty P _ _ _ _ _ _ _ _ _ Hs (Forall_nil _) ER).
+Qed.
+
+Lemma plain_out_ends sty sk m s r l : mfine m ->
+  run_segs sty false false true (fst (lex m)) sk [] false = Ok (s, r, l) -> ends_with_bsl (r ++ snd (lex m)) = false.
+Proof.
+  intros Hm HR. destruct (mfine_segs m Hm) as [Hs _]. pose proof (mfine_tail m Hm) as Ht.
+  apply ends_app_false; [|exact Ht]. apply (run_segs_ends sty (fst (lex m)) true sk [] false s r l Hs eq_refl HR).
+Qed.
+
+(* a closed fine message followed by a fine one: rendered one after the other *)
+Lemma colorize_plain_app sty sk a b sk1 o1 sk2 o2 : closed a -> mfine a -> mfine b ->
+  colorize sty false sk a = Ok (sk1, o1) -> colorize sty false sk1 b = Ok (sk2, o2) ->
+  colorize sty false sk (a ++ b) = Ok (sk2, o1 ++ o2).
+Proof.
+  intros Hc Ha Hb. pose proof (mfine_app a b Hc Ha Hb) as Hab.
+  rewrite !colorize_plain_eq, (lex_app a b Hc).
+  assert (ends_with_bsl a = false) as A2 by apply Ha. assert (ends_with_bsl b = false) as B2 by apply Hb.
+  assert (ends_with_bsl (a ++ b) = false) as C2 by apply Hab. rewrite A2, B2, C2.
+  destruct (run_segs sty false false true (fst (lex a)) sk [] false) as [[[s1 r1] l1]|e] eqn:RA; [|discriminate].
+  intros H; inversion H; subst sk1 o1; clear H.
+  destruct (run_segs sty false false true (fst (lex b)) s1 [] false) as [[[s2 r2] l2]|e] eqn:RB; [|discriminate].
+  intros H; inversion H; subst sk2 o2; clear H.
+  pose proof (plain_out_ends sty sk a s1 r1 l1 Ha RA) as EA. pose proof (mfine_tail a Ha) as TA.
+  set (ta := snd (lex a)) in *. set (tb := snd (lex b)) in *.
+  unfold lex_cat. fold ta tb. destruct (fst (lex b)) as [|[p t] r] eqn:EL; cbn [fst snd]; unfold str in *.
+  - cbn [run_segs] in RB. inversion RB; subst. rewrite RA. cbn [app]. rewrite app_assoc, (unescape_app_l _ _ EA). reflexivity.
+  - rewrite run_segs_app, RA, (run_segs_graft sty false ta p t r s1 r1 l1 TA).
+    rewrite (run_segs_le _ _ _ _ _ _ _ _ l1 false), <- (app_nil_r (r1 ++ ta)), run_segs_prefix. unfold str in *.
+    rewrite <- (run_segs_first sty false true ((p, t) :: r) s1 [] false). unfold str in *. rewrite RB.
+    rewrite <- app_assoc, (unescape_app_l _ _ EA). reflexivity.
+Qed.
+Lemma colorize_plain_nl sty sk a sk1 o1 : mfine a ->
+  colorize sty false sk a = Ok (sk1, o1) -> colorize sty false sk (a ++ [NL]) = Ok (sk1, o1 ++ [NL]).
+Proof.
+  intros Ha. pose proof (mfine_nl a Ha) as Hn. destruct (lex_nl a) as [_ E].
+  rewrite !colorize_plain_eq, E. destruct Ha as (_ & A2 & _), Hn as (_ & N2 & _). rewrite A2, N2. cbn [fst snd].
+  destruct (run_segs sty false false true (fst (lex a)) sk [] false) as [[[s1 r1] l1]|e]; [|discriminate].
+  intros H; inversion H; subst. rewrite app_assoc, unescape_app_r; [reflexivity|]. cbn. discriminate.
+Qed.
+Lemma colorize_plain_blanks sty sk n : colorize sty false sk (blanks n) = Ok (sk, blanks n).
+Proof.
+  unfold colorize. destruct (lex_blanks n) as [_ ->]. now rewrite (unescape_id _ (blanks_no_bsl n)).
+Qed.
+Lemma colorize_nil sty col sk : colorize sty col sk [] = Ok (sk, []).
+Proof. reflexivity. Qed.
+
+(* decorated against undecorated, when the style stack is empty at the end: the same text under the SGR sequences *)
+Lemma apply_cur_empty x : apply_cur true [] x = x.
+Proof. destruct x; reflexivity. Qed.
+Lemma colorize_deco sty sk m o2 : mfine m -> colorize sty false sk m = Ok ([], o2) ->
+  exists o1, colorize sty true sk m = Ok ([], o1) /\ strip_sgr o1 = o2.
+Proof.
+  intros Hm. destruct (mfine_segs m Hm) as [Hs Ht]. destruct Hm as (M1 & M2 & M3).
+  unfold colorize. pose proof (lex_lossless m) as HL. destruct (lex m) as [segs tail]. cbn [fst snd] in *.
+  destruct segs as [|sg segs'] eqn:ES.
+  - intros H. inversion H; subst. eexists. split; [reflexivity|].
+    apply strips_sgr_strip, strips_text, unescape_P, M1.
+  - unfold str in *. rewrite <- ES in *. rewrite M2.
+    pose proof (run_segs_lockstep_gen sty segs sk [] [] true false Hs lock_nil) as HR.
+    destruct (run_segs sty true false true segs sk [] false) as [[[s1 r1] l1]|e1],
+             (run_segs sty false false true segs sk [] false) as [[[s2 r2] l2]|e2]; try contradiction; cbn [bind]; [|discriminate].
+    destruct HR as (-> & -> & (E1 & E2 & HK) & El). rewrite El, ES.
+    rewrite !apply_cur_false, removelast_lastchar. intros H. inversion H; subst s2 o2. clear H.
+    rewrite !apply_cur_empty, removelast_lastchar. eexists. split; [reflexivity|].
+    rewrite (unescape_app_l _ _ E1), (unescape_app_l _ _ E2).
+    apply strips_sgr_strip, strips_app; [exact HK|]. apply strips_text, unescape_P, Ht.
+Qed.
+
+(* ---------- 4. small list facts ---------- *)
+Lemma flat_map_map {X Y Z} (f : Y -> list Z) (g : X -> Y) l : flat_map f (map g l) = flat_map (fun x => f (g x)) l.
+Proof. induction l as [|x l IH]; cbn; [reflexivity|]. now rewrite IH. Qed.
+Lemma flat_map_flat_map {X Y Z} (f : Y -> list Z) (g : X -> list Y) l :
+  flat_map f (flat_map g l) = flat_map (fun x => flat_map f (g x)) l.
+Proof. induction l as [|x l IH]; cbn; [reflexivity|]. now rewrite flat_map_app, IH. Qed.
+Lemma Forall_flat_map {X Y} (P : Y -> Prop) (g : X -> list Y) l : Forall (fun x => Forall P (g x)) l -> Forall P (flat_map g l).
+Proof. induction 1; cbn; [constructor|]. apply Forall_app. split; assumption. Qed.
+
+Lemma join_cons2 (x y : str) r : join_with NL (x :: y :: r) = (x ++ [NL]) ++ join_with NL (y :: r).
+Proof. cbn [join_with]. now rewrite <- app_assoc. Qed.
+Lemma lines_of_ne s : lines_of s <> [].
+Proof. induction s as [|c r IH]; cbn [lines_of]; [discriminate|]. destruct (N.eqb c LF); [discriminate|]. destruct (lines_of r); [contradiction|discriminate]. Qed.
+Lemma join_lines s : join_with NL (lines_of s) = s.
+Proof.
+  induction s as [|c r IH]; [reflexivity|]. cbn [lines_of]. pose proof (lines_of_ne r) as Hne.
+  destruct (N.eqb_spec c LF) as [->|Hc].
+  - destruct (lines_of r) as [|l ls] eqn:E; [contradiction|]. rewrite join_cons2. cbn [app]. now rewrite IH.
+  - destruct (lines_of r) as [|l ls] eqn:E; [contradiction|]. destruct ls as [|l2 ls]; cbn [join_with] in *; now rewrite <- IH.
+Qed.
+Definition no_lf (l : str) : Prop := Forall (fun c => N.eqb c LF = false) l.
+Lemma lines_of_no_lf s : Forall no_lf (lines_of s).
+Proof.
+  induction s as [|c r IH]; cbn [lines_of]; [repeat constructor|]. destruct (N.eqb c LF) eqn:E.
+  - constructor; [constructor|exact IH].
+  - destruct (lines_of r) as [|l ls]; [repeat constructor; exact E|]. inversion IH; subst. constructor; [constructor; assumption|assumption].
+Qed.
+
+Definition nl_lines (vs : list str) : str := flat_map (fun v => v ++ [NL]) vs.
+Lemma emits_no_lf l : no_lf l -> emits_of_text l = map Ch l.
+Proof. unfold emits_of_text. induction 1 as [|c r Hc Hr IH]; cbn; [reflexivity|]. now rewrite Hc, IH. Qed.
+Lemma emits_nl_lines vs : Forall no_lf vs -> emits_of_text (nl_lines vs) = flat_map (fun v => map Ch v ++ [Nl]) vs.
+Proof.
+  induction 1 as [|v r Hv Hr IH]; [reflexivity|]. unfold nl_lines in *. cbn [flat_map].
+  rewrite !emits_of_text_app, IH, (emits_no_lf v Hv). reflexivity.
+Qed.
+Lemma emits_join vs : vs <> [] -> Forall no_lf vs ->
+  emits_of_text (join_with NL vs) ++ [Nl] = flat_map (fun v => map Ch v ++ [Nl]) vs.
+Proof.
+  induction vs as [|v r IH]; intros Hne H; [congruence|]. inversion H as [|? ? Hv Hr]; subst.
+  destruct r as [|v2 r].
+  - cbn [join_with flat_map]. now rewrite (emits_no_lf v Hv), app_nil_r.
+  - rewrite join_cons2. cbn [flat_map]. rewrite !emits_of_text_app, (emits_no_lf v Hv), <- !app_assoc.
+    rewrite (IH ltac:(discriminate) Hr). change (emits_of_text [NL]) with [Nl]. cbn [flat_map]. now rewrite <- !app_assoc.
+Qed.
+
+Lemma split_at {X} (st : list X) i s : nth_error st i = Some s ->
+  st = firstn i st ++ s :: skipn (S i) st /\ length (firstn i st) = i.
+Proof.
+  revert i. induction st as [|x r IH]; intros [|i] H; cbn in *; try discriminate.
+  - inversion H. auto.
+  - destruct (IH i H) as [E L]. split; [now rewrite <- E|now rewrite L].
+Qed.
+Lemma lastn_droplast {X} n (l : list X) : l = droplast n l ++ lastn n l.
+Proof. unfold droplast, lastn. symmetry. apply firstn_skipn. Qed.
 
 Section W.
 Variable w : nat.
 Hypothesis w_pos : 1 <= w.
+Variable sty : styles.                      (* the style table of the formatter the sections share *)
 
-Definition line_rows (l : str) : list row := fill w [] l.
-Definition sec_rows (s : sec) : list row := flat_map line_rows (sc_content s).
-Definition stack (st : secs) : list row := flat_map sec_rows st.
-Definition screen (st : secs) : term := {| rows := stack st ++ [[]]; cr := length (stack st); cc := 0 |}.
-Definition no_lf (l : str) : Prop := Forall (fun c => N.eqb c LF = false) l.
-Definition sec_ok (s : sec) : Prop := sc_lines s = length (sec_rows s) /\ Forall no_lf (sc_content s).
+(* ---------- 5. the formatter between two operations; good lines ---------- *)
+Definition fmt_ok (f : formatter) : Prop := is_ansi f /\ f_styles f = sty /\ f_stack f = [].
+Lemma format_ok f m o : fmt_ok f -> colorize sty true [] m = Ok ([], o) ->
+  exists f', format f m None = Ok (f', o) /\ fmt_ok f'.
+Proof.
+  intros (Hk & Hs & Hst) H. unfold format, is_ansi in *. destruct (f_kind f) eqn:Ek; try contradiction.
+  rewrite Hs, Hst, H. cbn [bind fst snd]. eexists. split; [reflexivity|]. unfold fmt_ok, is_ansi. cbn. rewrite ?Ek. auto.
+Qed.
+Lemma remove_format_ok f m o : fmt_ok f -> colorize sty false [] m = Ok ([], o) ->
+  exists f', remove_format f m = Ok (f', o) /\ fmt_ok f'.
+Proof.
+  intros (Hk & Hs & Hst) H. unfold remove_format, is_ansi in *. destruct (f_kind f) eqn:Ek; try contradiction.
+  rewrite Hs, Hst, H. cbn [bind fst snd]. eexists. split; [reflexivity|]. unfold fmt_ok, is_ansi. cbn. rewrite ?Ek. auto.
+Qed.
+
+(* the visible text of a line of markup *)
+Definition vis (l : str) : str := match colorize sty false [] l with Ok (_, v) => v | Err _ => [] end.
+Definition okline (l : str) : Prop := no_lf l /\ mfine l /\ colorize sty false [] l = Ok ([], vis l).
+Lemma good_line_ok l : good_lineb sty l = true -> okline l.
+Proof.
+  unfold good_lineb. intros H. apply Bool.andb_true_iff in H as [H H3]. apply Bool.andb_true_iff in H as [H1 H2].
+  repeat split.
+  - rewrite forallb_forall in H1. apply Forall_forall. intros c Hc. specialize (H1 c Hc).
+    apply Bool.andb_true_iff in H1 as [H1 _]. now destruct (N.eqb c LF).
+  - apply fineb_mfine, H2.
+  - apply fineb_mfine, H2.
+  - apply fineb_mfine, H2.
+  - unfold vis. destruct (colorize sty false [] l) as [[sk v]|e]; [|discriminate]. destruct sk; [reflexivity|discriminate].
+Qed.
+Lemma vis_eq l v : colorize sty false [] l = Ok ([], v) -> vis l = v.
+Proof. unfold vis. now intros ->. Qed.
+Lemma vis_no_lf l : okline l -> no_lf (vis l).
+Proof. intros (H1 & _ & H3). exact (colorize_plain_P sty _ [] l [] (vis l) H1 H3). Qed.
+Lemma okline_nil : okline [] /\ vis [] = [].
+Proof. repeat split; try constructor. Qed.
+Lemma blanks_no_lf n : no_lf (blanks n).
+Proof. unfold blanks. induction n; cbn; [constructor|constructor; [reflexivity|assumption]]. Qed.
+Lemma okline_indent n l : okline l -> okline (blanks n ++ l) /\ vis (blanks n ++ l) = blanks n ++ vis l.
+Proof.
+  intros (H1 & H2 & H3). destruct (lex_blanks n) as [Hc _].
+  pose proof (colorize_plain_app sty [] (blanks n) l [] (blanks n) [] (vis l) Hc (mfine_blanks n) H2
+                (colorize_plain_blanks sty [] n) H3) as HC.
+  pose proof (vis_eq _ _ HC) as HV. repeat split.
+  - apply Forall_app. split; [apply blanks_no_lf|exact H1].
+  - apply (mfine_app _ _ Hc (mfine_blanks n) H2).
+  - apply (mfine_app _ _ Hc (mfine_blanks n) H2).
+  - apply (mfine_app _ _ Hc (mfine_blanks n) H2).
+  - now rewrite HV.
+  - exact HV.
+Qed.
+
+(* lines, each followed by a line feed, in one message: the lines one after the other *)
+Lemma nl_lines_plain ls : Forall okline ls ->
+  mfine (nl_lines ls) /\ colorize sty false [] (nl_lines ls) = Ok ([], nl_lines (map vis ls)).
+Proof.
+  induction 1 as [|l r (L1 & L2 & L3) Hr [IH1 IH2]]; [split; [apply mfine_nil|reflexivity]|].
+  unfold nl_lines in *. cbn [flat_map map]. destruct (lex_nl l) as [Hc _]. split.
+  - apply mfine_app; [exact Hc|apply mfine_nl, L2|exact IH1].
+  - apply (colorize_plain_app sty [] (l ++ [NL]) _ [] (vis l ++ [NL]) [] _ Hc (mfine_nl l L2) IH1); [|exact IH2].
+    apply colorize_plain_nl; assumption.
+Qed.
+(* lines joined by line feeds *)
+Lemma join_plain es : es <> [] -> Forall okline es ->
+  mfine (join_with NL es) /\ colorize sty false [] (join_with NL es) = Ok ([], join_with NL (map vis es)).
+Proof.
+  induction es as [|x r IH]; intros Hne H; [congruence|]. inversion H as [|? ? (L1 & L2 & L3) Hr]; subst.
+  destruct r as [|y r].
+  - cbn [join_with map]. split; assumption.
+  - destruct (IH ltac:(discriminate) Hr) as [IH1 IH2]. cbn [map]. rewrite !join_cons2. destruct (lex_nl x) as [Hc _]. split.
+    + apply mfine_app; [exact Hc|apply mfine_nl, L2|exact IH1].
+    + apply (colorize_plain_app sty [] (x ++ [NL]) _ [] (vis x ++ [NL]) [] _ Hc (mfine_nl x L2) IH1); [|exact IH2].
+      apply colorize_plain_nl; assumption.
+Qed.
+(* what the formatter writes for such a message: the visible text under SGR sequences; the style stack stays empty *)
+Lemma deco_of_plain m v f : mfine m -> colorize sty false [] m = Ok ([], v) -> fmt_ok f ->
+  exists f' a, format f m None = Ok (f', a) /\ fmt_ok f' /\ strip_sgr a = v.
+Proof.
+  intros Hm Hp Hf. destruct (colorize_deco sty [] m v Hm Hp) as (a & Ha & Hs).
+  destruct (format_ok f m a Hf Ha) as (f' & H1 & H2). eauto.
+Qed.
+
+(* ---------- 6. rows ---------- *)
+Definition line_rows (v : str) : list row := fill w [] v.
+Definition vrows (ls : list str) : list row := flat_map (fun c => line_rows (vis c)) ls.     (* content lines -> rows *)
+Definition sec_rows (s : sec) : list row := vrows (sc_content s).
+Definition stacked (st : secs) : list row := flat_map sec_rows st.
+Definition scr (R : list row) : term := {| rows := R ++ [[]]; cr := length R; cc := 0 |}.
+Definition screen (st : secs) : term := scr (stacked st).
+Definition sec_ok (s : sec) : Prop := sc_lines s = length (sec_rows s) /\ Forall okline (sc_content s).
 
 Lemma count_rows_fill l : count_rows w l = length (line_rows l).
 Proof.
@@ -20,82 +502,100 @@ Proof.
   replace (0 + S n - 1) with n by lia. replace (S n + w - 1) with (1 * w + n) by lia.
   rewrite Nat.div_add_l by lia. lia.
 Qed.
-
-Lemma emits_no_lf l : no_lf l -> emits_of_text l = map Ch l.
+Lemma feed_lines : forall vs R, Forall no_lf vs ->
+  feed w (scr R) (flat_map (fun l => map Ch l ++ [Nl]) vs) = scr (R ++ flat_map line_rows vs).
 Proof.
-  unfold emits_of_text. induction 1 as [|c r Hc Hr IH]; cbn; [reflexivity|]. now rewrite Hc, IH.
-Qed.
-
-(* text ++ "\n" is its lines, each followed by LF *)
-Lemma lines_of_spec s :
-  emits_of_text s ++ [Nl] = flat_map (fun l => map Ch l ++ [Nl]) (lines_of s) /\ Forall no_lf (lines_of s) /\ lines_of s <> [].
-Proof.
-  induction s as [|c r (IH1 & IH2 & IH3)]; cbn [lines_of].
-  - repeat split; cbn; auto; [repeat constructor | discriminate].
-  - destruct (N.eqb c LF) eqn:E.
-    + cbn [emits_of_text map app flat_map]. rewrite E. cbn [map app]. repeat split.
-      * f_equal. exact IH1.
-      * constructor; [constructor|exact IH2].
-      * discriminate.
-    + destruct (lines_of r) as [|l ls] eqn:El; [contradiction|].
-      cbn [emits_of_text map app flat_map] in *. rewrite E. repeat split.
-      * cbn [map app]. f_equal. exact IH1.
-      * inversion IH2; subst. constructor; [constructor; assumption|assumption].
-      * discriminate.
-Qed.
-
-(* feeding lines *)
-Lemma feed_lines : forall ls R, Forall no_lf ls ->
-  feed w {| rows := R ++ [[]]; cr := length R; cc := 0 |} (flat_map (fun l => map Ch l ++ [Nl]) ls)
-  = {| rows := (R ++ flat_map line_rows ls) ++ [[]]; cr := length (R ++ flat_map line_rows ls); cc := 0 |}.
-Proof.
-  induction ls as [|l r IH]; intros R Hn; cbn [flat_map].
+  unfold scr. induction vs as [|l r IH]; intros R Hn; cbn [flat_map].
   - now rewrite app_nil_r.
   - inversion Hn; subst. rewrite feed_app, (feed_line w w_pos l R).
     replace (length R + length (fill w [] l)) with (length (R ++ fill w [] l)) by (rewrite app_length; reflexivity).
     rewrite app_assoc. rewrite (IH (R ++ fill w [] l)) by assumption.
     unfold line_rows. now rewrite <- !app_assoc.
 Qed.
-
-Lemma content_text_spec s : Forall no_lf (sc_content s) ->
-  content_text s = flat_map (fun l => map Ch l ++ [Nl]) (sc_content s).
+Lemma pop_feed R1 R2 :
+  feed w (scr (R1 ++ R2)) (if Nat.eqb (length R2) 0 then [] else [Up (length R2); EraseBelow]) = scr R1.
 Proof.
-  unfold content_text. induction 1 as [|l r Hl Hr IH]; cbn [flat_map]; [reflexivity|].
-  now rewrite (emits_no_lf l Hl), IH.
+  unfold scr. destruct (Nat.eqb (length R2) 0) eqn:E.
+  - apply Nat.eqb_eq in E. destruct R2; [|cbn in E; lia]. cbn. now rewrite !app_nil_r.
+  - rewrite <- app_assoc, app_length. apply (up_erase w w_pos R1 R2).
 Qed.
-
-Lemma feed_sections : forall B R, Forall sec_ok B ->
-  feed w {| rows := R ++ [[]]; cr := length R; cc := 0 |} (flat_map content_text B)
-  = {| rows := (R ++ stack B) ++ [[]]; cr := length (R ++ stack B); cc := 0 |}.
+Lemma stacked_app A B : stacked (A ++ B) = stacked A ++ stacked B.
+Proof. unfold stacked. apply flat_map_app. Qed.
+Lemma vrows_app a b : vrows (a ++ b) = vrows a ++ vrows b.
+Proof. unfold vrows. apply flat_map_app. Qed.
+Lemma vrows_vis ls : vrows ls = flat_map line_rows (map vis ls).
+Proof. unfold vrows. now rewrite flat_map_map. Qed.
+Lemma sum_lines B : Forall sec_ok B -> fold_left (fun a s => a + sc_lines s) B 0 = length (stacked B).
 Proof.
-  induction B as [|s r IH]; intros R Hok; cbn [flat_map stack].
-  - now rewrite app_nil_r.
-  - inversion Hok as [|? ? [Hl Hn] Hr]; subst. rewrite feed_app, (content_text_spec s Hn), (feed_lines _ R Hn).
-    fold (sec_rows s). rewrite (IH (R ++ sec_rows s) Hr). unfold stack. cbn [flat_map]. now rewrite <- !app_assoc.
-Qed.
-
-Lemma sum_lines B : Forall sec_ok B -> fold_left (fun a s => a + sc_lines s) B 0 = length (stack B).
-Proof.
-  assert (forall B x, Forall sec_ok B -> fold_left (fun a s => a + sc_lines s) B x = x + length (stack B)) as H.
+  assert (forall B x, Forall sec_ok B -> fold_left (fun a s => a + sc_lines s) B x = x + length (stacked B)) as H.
   { induction B0 as [|s r IH]; intros x Hok; cbn; [lia|]. inversion Hok as [|? ? [Hl _] Hr]; subst.
-    rewrite IH by assumption. unfold stack. cbn [flat_map]. rewrite app_length, Hl. fold (stack r). lia. }
+    rewrite IH by assumption. unfold stacked. cbn [flat_map]. rewrite app_length, Hl. fold (stacked r). lia. }
   intros Hok. now rewrite H.
 Qed.
-Lemma sum_rows ls x : fold_left (fun a l => a + count_rows w l) ls x = x + length (flat_map line_rows ls).
+
+(* _count_rows over good lines: their rows, and the formatter as it was *)
+Lemma measure_ok : forall ls f acc, fmt_ok f -> Forall okline ls ->
+  exists f', measure w f ls acc = Ok (f', acc + length (vrows ls)) /\ fmt_ok f'.
 Proof.
-  revert x. induction ls as [|l r IH]; intros x; cbn; [lia|]. rewrite IH, app_length, count_rows_fill. lia.
+  induction ls as [|l r IH]; intros f acc Hf H; cbn [measure].
+  - exists f. split; [cbn; f_equal; f_equal; lia|exact Hf].
+  - inversion H as [|? ? (L1 & L2 & L3) Hr]; subst. destruct (remove_format_ok f l (vis l) Hf L3) as (f1 & E1 & Hf1).
+    rewrite E1. cbn [bind fst snd]. destruct (IH f1 (acc + count_rows w (vis l)) Hf1 Hr) as (f2 & E2 & Hf2).
+    exists f2. split; [|exact Hf2]. rewrite E2, count_rows_fill. unfold vrows. cbn [flat_map]. rewrite app_length.
+    f_equal. f_equal. lia.
 Qed.
 
-(* decomposition of the section list around index i *)
-Lemma split_at (st : secs) i s : nth_error st i = Some s ->
-  st = firstn i st ++ s :: skipn (S i) st /\ length (firstn i st) = i.
+(* the newer sections printed again, in one format call *)
+Lemma content_str_all B : flat_map content_str B = nl_lines (flat_map sc_content B).
+Proof. unfold content_str, nl_lines. now rewrite flat_map_flat_map. Qed.
+Lemma stacked_all B : stacked B = vrows (flat_map sc_content B).
+Proof. unfold stacked, sec_rows, vrows. now rewrite flat_map_flat_map. Qed.
+Lemma reprint_ok B f R : fmt_ok f -> Forall sec_ok B ->
+  exists f' a, format f (flat_map content_str B) None = Ok (f', a) /\ fmt_ok f' /\
+               feed w (scr R) (emits_of_ansi a) = scr (R ++ stacked B).
 Proof.
-  revert i. induction st as [|x r IH]; intros [|i] H; cbn in *; try discriminate.
-  - inversion H. auto.
-  - destruct (IH i H) as [E L]. split; [now rewrite <- E|now rewrite L].
+  intros Hf Hok. rewrite content_str_all, stacked_all. set (ls := flat_map sc_content B).
+  assert (Forall okline ls) as Hls.
+  { apply Forall_flat_map. eapply Forall_impl; [|exact Hok]. intros s [_ H]. exact H. }
+  destruct (nl_lines_plain ls Hls) as [H1 H2]. destruct (deco_of_plain _ _ f H1 H2 Hf) as (f' & a & E & Hf' & Hs).
+  exists f', a. split; [exact E|]. split; [exact Hf'|].
+  assert (Forall no_lf (map vis ls)) as Hv.
+  { apply Forall_map. eapply Forall_impl; [|exact Hls]. exact vis_no_lf. }
+  rewrite feed_ansi, Hs, (emits_nl_lines _ Hv), (feed_lines _ R Hv), vrows_vis. reflexivity.
 Qed.
-Lemma stack_app A B : stack (A ++ B) = stack A ++ stack B.
-Proof. unfold stack. apply flat_map_app. Qed.
+
+(* the written text: its lines as the stream gets them and as add_content keeps them *)
+Lemma indent_text_join n text : indent_text n text = join_with NL (content_lines n text).
+Proof. unfold indent_text, content_lines. destruct (Nat.eqb n 0); [now rewrite join_lines|reflexivity]. Qed.
+Lemma content_lines_ok n text : Forall okline (lines_of text) -> Forall okline (content_lines n text) /\ content_lines n text <> [].
+Proof.
+  intros H. pose proof (lines_of_ne text) as Hne. unfold content_lines. destruct (Nat.eqb n 0); [split; assumption|]. split.
+  - apply Forall_map. eapply Forall_impl; [|exact H]. intros l Hl. unfold indent_line. destruct l; [exact Hl|].
+    apply okline_indent, Hl.
+  - destruct (lines_of text); [contradiction|discriminate].
+Qed.
+Lemma write_ok f n text R : fmt_ok f -> Forall okline (lines_of text) ->
+  exists f' a, format f (indent_text n text) None = Ok (f', a) /\ fmt_ok f' /\
+               feed w (scr R) (emits_of_ansi a ++ [Nl]) = scr (R ++ vrows (content_lines n text)).
+Proof.
+  intros Hf H. destruct (content_lines_ok n text H) as [Hes Hne]. rewrite indent_text_join.
+  destruct (join_plain _ Hne Hes) as [H1 H2]. destruct (deco_of_plain _ _ f H1 H2 Hf) as (f' & a & E & Hf' & Hs).
+  exists f', a. split; [exact E|]. split; [exact Hf'|].
+  assert (Forall no_lf (map vis (content_lines n text))) as Hv.
+  { apply Forall_map. eapply Forall_impl; [|exact Hes]. exact vis_no_lf. }
+  assert (map vis (content_lines n text) <> []) as Hne' by (destruct (content_lines n text); [contradiction|discriminate]).
+  rewrite feed_drop_sgr, drop_sgr_app, drop_sgr_ansi, Hs. change (drop_sgr [Nl]) with [Nl].
+  rewrite (emits_join _ Hne' Hv), (feed_lines _ R Hv), vrows_vis. reflexivity.
+Qed.
+
+(* ---------- 7. the invariant: the screen is the stack, every row count is right, the style stack is empty ---------- *)
+Lemma good_text_spec text : good_textb sty text = true -> Forall okline (lines_of text).
+Proof.
+  unfold good_textb. intros H. rewrite forallb_forall in H. apply Forall_forall. intros l Hl. apply good_line_ok, H, Hl.
+Qed.
+
+Definition Inv (st : secs) (f : formatter) (t : term) : Prop := t = screen st /\ Forall sec_ok st /\ fmt_ok f.
+
 Lemma Forall_split (st : secs) i s : Forall sec_ok st -> nth_error st i = Some s ->
   Forall sec_ok (firstn i st) /\ sec_ok s /\ Forall sec_ok (skipn (S i) st).
 Proof.
@@ -103,174 +603,292 @@ Proof.
   apply Forall_app in Hok as [H1 H2]. inversion H2; subst. auto.
 Qed.
 
-(* up over the newer sections (plus `clear` rows of this one), erase, re-print the newer ones *)
-Lemma pop_and_reprint A (C : list row) B :
-  Forall sec_ok B ->
-  let total := length C + fold_left (fun a s => a + sc_lines s) B 0 in
-  feed w {| rows := (A ++ C ++ stack B) ++ [[]]; cr := length (A ++ C ++ stack B); cc := 0 |}
-       ((if Nat.eqb total 0 then [] else [Up total; EraseBelow]) ++ flat_map content_text B)
-  = {| rows := (A ++ stack B) ++ [[]]; cr := length (A ++ stack B); cc := 0 |}.
+Lemma write_step st f t i text nl s :
+  Inv st f t -> nth_error st i = Some s -> good_textb sty text = true ->
+  exists st' f' es, sstep_ansi w st f (SWrite i text nl) = Ok (st', f', es) /\ Inv st' f' (feed w t es).
 Proof.
-  intros Hok total. unfold total. rewrite (sum_lines B Hok). rewrite feed_app.
-  assert (feed w {| rows := (A ++ C ++ stack B) ++ [[]]; cr := length (A ++ C ++ stack B); cc := 0 |}
-               (if Nat.eqb (length C + length (stack B)) 0 then [] else [Up (length C + length (stack B)); EraseBelow])
-          = {| rows := A ++ [[]]; cr := length A; cc := 0 |}) as ->.
-  { destruct (Nat.eqb (length C + length (stack B)) 0) eqn:E.
-    - apply Nat.eqb_eq in E. assert (C = []) as -> by (destruct C; [reflexivity|cbn in E; lia]).
-      assert (stack B = []) as -> by (destruct (stack B); [reflexivity|cbn in E; lia]).
-      cbn. now rewrite !app_nil_r.
-    - rewrite <- (app_length C (stack B)).
-      rewrite <- (app_assoc A (C ++ stack B) [[]]).
-      rewrite (app_length A (C ++ stack B)).
-      apply (up_erase w w_pos A (C ++ stack B)). }
-  apply feed_sections, Hok.
-Qed.
-
-Lemma sec_rows_app s ls n :
-  sec_rows {| sc_content := sc_content s ++ ls; sc_lines := n |} = sec_rows s ++ flat_map line_rows ls.
-Proof. unfold sec_rows. cbn [sc_content]. apply flat_map_app. Qed.
-
-Definition Inv (st : secs) (t : term) : Prop := t = screen st /\ Forall sec_ok st.
-
-Lemma set_sec_split (st : secs) i s s' : nth_error st i = Some s ->
-  set_sec st i s' = firstn i st ++ s' :: skipn (S i) st.
-Proof. reflexivity. Qed.
-
-Lemma write_step st t i text nl s :
-  Inv st t -> nth_error st i = Some s ->
-  let '(st', es) := sstep_ansi w st (SWrite i text nl) in Inv st' (feed w t es).
-Proof.
-  intros [-> Hok] Hn. cbn [sstep_ansi]. rewrite Hn. unfold pop_until, newer.
-  destruct (Forall_split st i s Hok Hn) as (HA & [Hl Hnl] & HB).
-  destruct (split_at st i s Hn) as [E _].
-  set (A := firstn i st) in *. set (B := skipn (S i) st) in *.
-  destruct (lines_of_spec text) as (Htext & Hlf & _).
-  cbn [Nat.add]. split.
-  - unfold screen. rewrite E at 1 2. rewrite stack_app. cbn [stack flat_map]. fold (stack B).
-    rewrite (app_assoc (emits_of_text text) [Nl]), Htext.
-    rewrite feed_app, feed_app.
-    (* first: up + erase *)
-    assert (feed w {| rows := (stack A ++ sec_rows s ++ stack B) ++ [[]]; cr := length (stack A ++ sec_rows s ++ stack B); cc := 0 |}
-                 (if Nat.eqb (fold_left (fun a s0 => a + sc_lines s0) B 0) 0 then []
-                  else [Up (fold_left (fun a s0 => a + sc_lines s0) B 0); EraseBelow])
-            = {| rows := (stack A ++ sec_rows s) ++ [[]]; cr := length (stack A ++ sec_rows s); cc := 0 |}) as ->.
-    { pose proof (pop_and_reprint (stack A ++ sec_rows s) [] []) as H0. cbn [length Nat.add app flat_map] in H0.
-      rewrite (sum_lines B HB).
-      destruct (Nat.eqb (length (stack B)) 0) eqn:E0.
-      - apply Nat.eqb_eq in E0. destruct (stack B); [|cbn in E0; lia]. cbn. now rewrite !app_nil_r, <- app_assoc.
-      - rewrite (app_assoc (stack A)). rewrite <- (app_assoc (stack A ++ sec_rows s) (stack B) [[]]).
-        rewrite (app_length (stack A ++ sec_rows s) (stack B)).
-        apply (up_erase w w_pos (stack A ++ sec_rows s) (stack B)). }
-    rewrite (feed_lines (lines_of text) (stack A ++ sec_rows s) Hlf).
-    rewrite (feed_sections B _ HB).
-    rewrite set_sec_split with (s := s) by assumption. fold A B.
-    rewrite stack_app. cbn [stack flat_map]. fold (stack B). rewrite !sec_rows_app. now rewrite <- !app_assoc.
-  - rewrite set_sec_split with (s := s) by assumption. fold A B.
-    apply Forall_app. split; [exact HA|]. constructor; [|exact HB].
+  intros (-> & Hok & Hf) Hn Hg. pose proof (good_text_spec _ Hg) as Hlines.
+  destruct (Forall_split st i s Hok Hn) as (HA & [Hl Hc] & HB). destruct (split_at st i s Hn) as [E _].
+  cbn [sstep_ansi]. rewrite Hn. unfold erased, pop_ctl, newer.
+  set (A := firstn i st) in *. set (B := skipn (S i) st) in *. set (n := sc_indent s) in *.
+  destruct (content_lines_ok n text Hlines) as [Hcl _].
+  destruct (measure_ok (content_lines n text) f (sc_lines s) Hf Hcl) as (f1 & E1 & Hf1). rewrite E1. cbn [bind fst snd].
+  destruct (write_ok f1 n text (stacked A ++ sec_rows s) Hf1 Hlines) as (f2 & a & E2 & Hf2 & F2). rewrite E2. cbn [bind fst snd].
+  destruct (reprint_ok B f2 ((stacked A ++ sec_rows s) ++ vrows (content_lines n text)) Hf2 HB) as (f3 & a2 & E3 & Hf3 & F3).
+  rewrite E3. cbn [bind fst snd].
+  eexists _, _, _. split; [reflexivity|]. split; [|split; [|exact Hf3]].
+  - unfold screen. rewrite E at 1. rewrite stacked_app. cbn [stacked flat_map]. fold (stacked B).
+    rewrite !feed_app. cbn [Nat.add]. rewrite (sum_lines B HB).
+    rewrite (app_assoc (stacked A) (sec_rows s) (stacked B)), pop_feed.
+    rewrite <- (feed_app w _ (emits_of_ansi a) [Nl]), F2, F3.
+    unfold set_sec. fold A B. rewrite stacked_app. cbn [stacked flat_map]. fold (stacked B).
+    unfold sec_rows at 2. cbn [sc_content]. rewrite vrows_app. fold (sec_rows s). now rewrite <- !app_assoc.
+  - unfold set_sec. fold A B. apply Forall_app. split; [exact HA|]. constructor; [|exact HB].
     split; cbn [sc_lines sc_content].
-    + rewrite sum_rows, Hl, sec_rows_app. now rewrite app_length.
-    + apply Forall_app. auto.
+    + unfold sec_rows. cbn [sc_content]. rewrite vrows_app, app_length, Hl. reflexivity.
+    + apply Forall_app. split; assumption.
 Qed.
 
-Lemma lastn_droplast {X} n (l : list X) : l = droplast n l ++ lastn n l.
-Proof. unfold droplast, lastn. symmetry. apply firstn_skipn. Qed.
-
-Lemma clear_step st t i n s :
-  Inv st t -> nth_error st i = Some s ->
-  let '(st', es) := sstep_ansi w st (SClear i n) in Inv st' (feed w t es).
+Lemma clear_step st f t i n s :
+  Inv st f t -> nth_error st i = Some s ->
+  exists st' f' es, sstep_ansi w st f (SClear i n) = Ok (st', f', es) /\ Inv st' f' (feed w t es).
 Proof.
-  intros [-> Hok] Hn. cbn [sstep_ansi]. rewrite Hn.
-  destruct (sc_content s) as [|c0 cs] eqn:Ec; [cbn; split; auto|]. rewrite <- Ec.
-  destruct (Forall_split st i s Hok Hn) as (HA & [Hl Hnl] & HB).
-  destruct (split_at st i s Hn) as [E _].
-  set (A := firstn i st) in *. set (B := skipn (S i) st) in *.
-  (* what is kept, and how many rows go away *)
-  set (kr := match n with
-             | Some (S k) => (droplast (S k) (sc_content s),
-                              fold_left (fun a l => a + count_rows w l) (lastn (S k) (sc_content s)) 0)
-             | _ => ([], sc_lines s) end).
-  assert (exists keep gone, sc_content s = keep ++ gone /\ kr = (keep, length (flat_map line_rows gone))) as (keep & gone & Hsplit & Hkr).
-  { unfold kr. destruct n as [[|k]|].
-    - exists [], (sc_content s). split; [reflexivity|]. now rewrite Hl.
-    - exists (droplast (S k) (sc_content s)), (lastn (S k) (sc_content s)). split; [apply lastn_droplast|].
-      now rewrite sum_rows.
-    - exists [], (sc_content s). split; [reflexivity|]. now rewrite Hl. }
-  fold kr. rewrite Hkr. unfold pop_until, newer. fold B.
-  assert (sec_rows s = flat_map line_rows keep ++ flat_map line_rows gone) as Hrows
-    by (unfold sec_rows; rewrite Hsplit; apply flat_map_app).
-  split.
-  - unfold screen. rewrite E at 1 2. rewrite stack_app. cbn [stack flat_map]. fold (stack B). rewrite Hrows.
-    pose proof (pop_and_reprint (stack A ++ flat_map line_rows keep) (flat_map line_rows gone) B HB) as Hpop.
-    cbn zeta in Hpop. rewrite <- !app_assoc in Hpop. rewrite <- !app_assoc. rewrite Hpop.
-    rewrite set_sec_split with (s := s) by assumption. fold A B.
-    rewrite stack_app. cbn [stack flat_map]. fold (stack B). unfold sec_rows at 1. cbn [sc_content].
-    now rewrite <- !app_assoc.
-  - rewrite set_sec_split with (s := s) by assumption. fold A B.
-    apply Forall_app. split; [exact HA|]. constructor; [|exact HB].
+  intros (-> & Hok & Hf) Hn. cbn [sstep_ansi]. rewrite Hn.
+  destruct (sc_content s) as [|c0 cs] eqn:Ec.
+  { eexists _, _, _. split; [reflexivity|]. repeat split; auto; apply Hf. }
+  rewrite <- Ec.
+  destruct (Forall_split st i s Hok Hn) as (HA & [Hl Hc] & HB). destruct (split_at st i s Hn) as [E _].
+  unfold erased, pop_ctl, newer. set (A := firstn i st) in *. set (B := skipn (S i) st) in *.
+  (* what is kept, how many rows go away, the formatter afterwards *)
+  assert (exists keep gone f1, sc_content s = keep ++ gone /\ fmt_ok f1 /\
+            match n with
+            | Some (S k) => do m <- measure w f (lastn (S k) (sc_content s)) 0; Ok (droplast (S k) (sc_content s), snd m, fst m)
+            | _ => Ok ([], sc_lines s, f)
+            end = Ok (keep, length (vrows gone), f1)) as (keep & gone & f1 & Hsplit & Hf1 & Hkr).
+  { destruct n as [[|k]|].
+    - exists [], (sc_content s), f. split; [reflexivity|]. split; [exact Hf|]. now rewrite Hl.
+    - assert (Forall okline (lastn (S k) (sc_content s))) as Hg.
+      { rewrite (lastn_droplast (S k) (sc_content s)) in Hc. apply Forall_app in Hc. tauto. }
+      destruct (measure_ok _ f 0 Hf Hg) as (f1 & E1 & Hf1).
+      exists (droplast (S k) (sc_content s)), (lastn (S k) (sc_content s)), f1.
+      split; [apply lastn_droplast|]. split; [exact Hf1|]. rewrite E1. reflexivity.
+    - exists [], (sc_content s), f. split; [reflexivity|]. split; [exact Hf|]. now rewrite Hl. }
+  rewrite Hkr. cbn [bind].
+  assert (sec_rows s = vrows keep ++ vrows gone) as Hrows by (unfold sec_rows; rewrite Hsplit; apply vrows_app).
+  destruct (reprint_ok B f1 (stacked A ++ vrows keep) Hf1 HB) as (f3 & a2 & E3 & Hf3 & F3). rewrite E3. cbn [bind fst snd].
+  eexists _, _, _. split; [reflexivity|]. split; [|split; [|exact Hf3]].
+  - unfold screen. rewrite E at 1. rewrite stacked_app. cbn [stacked flat_map]. fold (stacked B). rewrite Hrows.
+    rewrite feed_app, (sum_lines B HB), <- app_length.
+    replace (stacked A ++ (vrows keep ++ vrows gone) ++ stacked B) with ((stacked A ++ vrows keep) ++ (vrows gone ++ stacked B))
+      by (now rewrite <- !app_assoc).
+    rewrite pop_feed, F3. unfold set_sec. fold A B. rewrite stacked_app. cbn [stacked flat_map]. fold (stacked B).
+    unfold sec_rows at 1. cbn [sc_content]. now rewrite <- !app_assoc.
+  - unfold set_sec. fold A B. apply Forall_app. split; [exact HA|]. constructor; [|exact HB].
     split; cbn [sc_lines sc_content].
     + unfold sec_rows at 1. cbn [sc_content]. rewrite Hl, Hrows, app_length. lia.
-    + rewrite Hsplit in Hnl. apply Forall_app in Hnl. tauto.
+    + rewrite Hsplit in Hc. apply Forall_app in Hc. tauto.
 Qed.
 
-Lemma write_step_any st t i text nl :
-  Inv st t -> let '(st', es) := sstep_ansi w st (SWrite i text nl) in Inv st' (feed w t es).
+(* one operation *)
+Lemma step_inv st f t o : Inv st f t -> good_opb sty o = true ->
+  exists st' f' es, sstep w st f o = Ok (st', f', es) /\ Inv st' f' (feed w t es).
 Proof.
-  intros HI. destruct (nth_error st i) as [s|] eqn:Hn.
-  - apply (write_step st t i text nl s HI Hn).
-  - cbn [sstep_ansi]. rewrite Hn. exact HI.
-Qed.
-Lemma clear_step_any st t i n :
-  Inv st t -> let '(st', es) := sstep_ansi w st (SClear i n) in Inv st' (feed w t es).
-Proof.
-  intros HI. destruct (nth_error st i) as [s|] eqn:Hn.
-  - apply (clear_step st t i n s HI Hn).
-  - cbn [sstep_ansi]. rewrite Hn. exact HI.
-Qed.
-
-Lemma step_inv st t o : Inv st t -> let '(st', es) := sstep w st o in Inv st' (feed w t es).
-Proof.
-  intros HI. destruct o as [|i text nl|i text|i n].
+  intros HI Hg. destruct o as [|i text nl|i text|i n|i n]; cbn [sstep good_opb] in *.
   - (* create *)
-    cbn. destruct HI as [-> Hok]. split.
-    + unfold screen. rewrite stack_app. cbn. now rewrite !app_nil_r.
+    cbn [sstep_ansi]. eexists _, _, _. split; [reflexivity|].
+    destruct HI as (-> & Hok & Hf). split; [|split; [|exact Hf]].
+    + unfold screen. rewrite stacked_app. cbn. now rewrite app_nil_r.
     + apply Forall_app. split; [exact Hok|]. constructor; [|constructor]. split; cbn; constructor.
-  - apply write_step_any, HI.
-  - cbn [sstep]. pose proof (clear_step_any st t i None HI) as H1.
-    destruct (sstep_ansi w st (SClear i None)) as [st1 e1].
-    pose proof (write_step_any st1 (feed w t e1) i text true H1) as H2.
-    destruct (sstep_ansi w st1 (SWrite i text true)) as [st2 e2].
-    rewrite feed_app. exact H2.
-  - apply clear_step_any, HI.
+  - destruct (nth_error st i) as [s|] eqn:Hn.
+    + apply (write_step st f t i text nl s HI Hn Hg).
+    + cbn [sstep_ansi]. rewrite Hn. eexists _, _, _. split; [reflexivity|exact HI].
+  - (* overwrite = clear, then write_line *)
+    destruct (nth_error st i) as [s|] eqn:Hn.
+    + destruct (clear_step st f t i None s HI Hn) as (st1 & f1 & e1 & E1 & HI1). rewrite E1. cbn [bind fst snd].
+      destruct (nth_error st1 i) as [s1|] eqn:Hn1.
+      * destruct (write_step st1 f1 _ i text true s1 HI1 Hn1 Hg) as (st2 & f2 & e2 & E2 & HI2). rewrite E2. cbn [bind fst snd].
+        eexists _, _, _. split; [reflexivity|]. now rewrite feed_app.
+      * cbn [sstep_ansi]. rewrite Hn1. cbn [bind fst snd]. eexists _, _, _. split; [reflexivity|]. now rewrite app_nil_r.
+    + cbn [sstep_ansi]. rewrite Hn. cbn [bind fst snd sstep_ansi]. rewrite Hn.
+      eexists _, _, _. split; [reflexivity|exact HI].
+  - destruct (nth_error st i) as [s|] eqn:Hn.
+    + apply (clear_step st f t i n s HI Hn).
+    + cbn [sstep_ansi]. rewrite Hn. eexists _, _, _. split; [reflexivity|exact HI].
+  - (* indent: nothing on the screen changes *)
+    cbn [sstep_ansi]. destruct (nth_error st i) as [s|] eqn:Hn.
+    + eexists _, _, _. split; [reflexivity|].
+      destruct HI as (-> & Hok & Hf). destruct (Forall_split st i s Hok Hn) as (HA & [Hl Hc] & HB).
+      destruct (split_at st i s Hn) as [E _].
+      assert (stacked (set_sec st i (with_indent s n)) = stacked st) as ES.
+      { rewrite E at 2. unfold set_sec. now rewrite !stacked_app. }
+      split; [unfold screen; now rewrite ES|]. split; [|exact Hf]. unfold set_sec. apply Forall_app. split; [exact HA|].
+      constructor; [|exact HB]. split; assumption.
+    + eexists _, _, _. split; [reflexivity|exact HI].
 Qed.
 
-(* every reachable state: the screen shows exactly the stacked section contents *)
-Lemma run_inv ops : forall st t, Inv st t ->
-  let '(st', es) := srun true w st ops in Inv st' (feed w t es).
+Lemma run_inv ops : forall st f t, Inv st f t -> good_opsb sty ops = true ->
+  exists st' f' es, srun true w st f ops = Ok (st', f', es) /\ Inv st' f' (feed w t es).
 Proof.
-  induction ops as [|o r IH]; intros st t HI; cbn [srun]; [exact HI|].
-  pose proof (step_inv st t o HI) as H1. destruct (sstep w st o) as [st1 e1].
-  pose proof (IH st1 (feed w t e1) H1) as H2. destruct (srun true w st1 r) as [st2 e2].
-  rewrite feed_app. exact H2.
+  induction ops as [|o r IH]; intros st f t HI Hg; cbn [srun].
+  - eexists _, _, _. split; [reflexivity|exact HI].
+  - cbn [good_opsb forallb] in Hg. apply Bool.andb_true_iff in Hg as [Hg1 Hg2].
+    destruct (step_inv st f t o HI Hg1) as (st1 & f1 & e1 & E1 & HI1). rewrite E1. cbn [bind fst snd].
+    destruct (IH st1 f1 _ HI1 Hg2) as (st2 & f2 & e2 & E2 & HI2). rewrite E2. cbn [bind fst snd].
+    eexists _, _, _. split; [reflexivity|]. now rewrite feed_app.
 Qed.
+End W.
 
-Lemma screen_is_stack_lemma ops :
-  let '(st, es) := srun true w [] ops in
-  feed w term_init es = screen st /\ Forall sec_ok st.
+(* ---------- 8. the theorem ---------- *)
+Lemma screen_is_stack_lemma w : 1 <= w -> forall f0 ops, is_ansi f0 -> f_stack f0 = [] ->
+  good_opsb (f_styles f0) ops = true ->
+  exists st f es, srun true w [] f0 ops = Ok (st, f, es) /\
+    feed w term_init es = screen w (f_styles f0) st /\ Forall (sec_ok w (f_styles f0)) st /\ fmt_ok (f_styles f0) f.
 Proof.
-  assert (Inv [] term_init) as H0 by (split; [reflexivity|constructor]).
-  pose proof (run_inv ops [] term_init H0) as H. destruct (srun true w [] ops) as [st es]. exact H.
+  intros w_pos f0 ops Hk Hs Hg.
+  assert (Inv w (f_styles f0) [] f0 term_init) as H0.
+  { split; [reflexivity|]. split; [constructor|]. repeat split; auto. }
+  destruct (run_inv w w_pos (f_styles f0) ops [] f0 term_init H0 Hg) as (st & f & es & E & Ht & Hok & Hf).
+  exists st, f, es. auto.
 Qed.
 
-(* without ANSI support: no control codes at all, only appended text *)
+(* ---------- 9. the special case: plain texts, indentation 0 ---------- *)
+Definition plain_char (c : N) : Prop := c <> LT /\ c <> BSL /\ c <> ESC /\ c <> TAB.
+Definition plain_text (t : str) : Prop := Forall plain_char t.
+Definition plain_op (o : sop) : Prop :=
+  match o with SWrite _ t _ | SOverwrite _ t => plain_text t | SIndent _ n => n = 0 | _ => True end.
+
+Lemma lines_of_P (P : N -> Prop) s : Forall P s -> Forall (Forall P) (lines_of s).
+Proof.
+  induction 1 as [|c r Hc Hr IH]; cbn [lines_of]; [repeat constructor|]. destruct (N.eqb c LF).
+  - constructor; [constructor|exact IH].
+  - destruct (lines_of r) as [|l ls]; [repeat constructor; exact Hc|]. inversion IH; subst. constructor; [constructor; assumption|assumption].
+Qed.
+Lemma plain_colorize sty sk l : Forall plain_char l -> colorize sty false sk l = Ok (sk, l).
+Proof.
+  intros H. unfold colorize. rewrite lex_no_tag.
+  - rewrite unescape_id; [reflexivity|]. eapply Forall_impl; [|exact H]. intros c (_ & Hc & _). exact Hc.
+  - eapply Forall_impl; [|exact H]. intros c (Hc & _). exact Hc.
+Qed.
+Lemma plain_vis sty l : Forall plain_char l -> vis sty l = l.
+Proof. intros H. unfold vis. now rewrite plain_colorize. Qed.
+Lemma plain_line_good sty l : Forall plain_char l -> no_lf l -> good_lineb sty l = true.
+Proof.
+  intros H Hn. unfold good_lineb, fineb. rewrite (plain_colorize sty [] l H), lex_no_tag.
+  2: { eapply Forall_impl; [|exact H]. intros c (Hc & _). exact Hc. }
+  rewrite (no_bsl_ends l). 2: { eapply Forall_impl; [|exact H]. intros c (_ & Hc & _). exact Hc. }
+  cbn [fst forallb negb andb]. rewrite !Bool.andb_true_r. apply Bool.andb_true_iff. split.
+  - apply forallb_forall. intros c Hc. unfold no_lf in Hn. rewrite Forall_forall in H, Hn.
+    rewrite (Hn c Hc). destruct (H c Hc) as (_ & _ & _ & Ht). destruct (N.eqb_spec c TAB); [contradiction|reflexivity].
+  - apply forallb_forall. intros c Hc. rewrite Forall_forall in H. destruct (H c Hc) as (_ & _ & He & _).
+    destruct (N.eqb_spec c ESC); [contradiction|reflexivity].
+Qed.
+Lemma plain_text_good sty text : plain_text text -> good_textb sty text = true.
+Proof.
+  intros H. unfold good_textb.
+  apply forallb_forall. intros l Hl. pose proof (lines_of_P _ text H) as HP. pose proof (lines_of_no_lf text) as HN.
+  rewrite Forall_forall in HP, HN. apply plain_line_good; auto.
+Qed.
+Lemma plain_ops_good sty ops : Forall plain_op ops -> good_opsb sty ops = true.
+Proof.
+  unfold good_opsb. intros H. apply forallb_forall. intros o Ho. rewrite Forall_forall in H. specialize (H o Ho).
+  destruct o; cbn [good_opb plain_op] in *; try reflexivity; apply plain_text_good, H.
+Qed.
+
+(* the content lines of a run of plain operations are the lines written: plain, not indented *)
+Definition all_content (P : str -> Prop) (st : secs) : Prop := Forall (fun s => Forall P (sc_content s) /\ sc_indent s = 0) st.
+Lemma all_content_set (P : str -> Prop) st i s s' : nth_error st i = Some s -> all_content P st ->
+  Forall P (sc_content s') -> sc_indent s' = 0 -> all_content P (set_sec st i s').
+Proof.
+  intros Hn H H1 H2. destruct (split_at st i s Hn) as [E _]. unfold all_content, set_sec in *. rewrite E in H.
+  apply Forall_app in H as [HA HB]. inversion HB; subst. apply Forall_app. split; [exact HA|]. constructor; auto.
+Qed.
+Lemma all_content_nth (P : str -> Prop) st i s : nth_error st i = Some s -> all_content P st -> Forall P (sc_content s) /\ sc_indent s = 0.
+Proof. intros Hn H. unfold all_content in H. rewrite Forall_forall in H. apply H. eapply nth_error_In. exact Hn. Qed.
+Lemma firstn_P {X} (P : X -> Prop) n l : Forall P l -> Forall P (firstn n l).
+Proof. intros H. rewrite <- (firstn_skipn n l) in H. apply Forall_app in H. tauto. Qed.
+Lemma step_ansi_content w st f o st' f' es : plain_op o -> all_content (Forall plain_char) st ->
+  sstep_ansi w st f o = Ok (st', f', es) -> all_content (Forall plain_char) st'.
+Proof.
+  intros Ho Ha. destruct o as [|i text nl|i text|i n|i n]; cbn [sstep_ansi plain_op] in *.
+  - intros H. inversion H; subst. apply Forall_app. split; [exact Ha|]. repeat constructor.
+  - destruct (nth_error st i) as [s|] eqn:Hn; [|intros H; inversion H; subst; exact Ha].
+    destruct (all_content_nth _ st i s Hn Ha) as [Hc Hi]. rewrite Hi.
+    destruct (measure w f _ _) as [m|e]; cbn [bind]; [|discriminate].
+    destruct (format (fst m) _ None) as [x|e]; cbn [bind]; [|discriminate].
+    destruct (format (fst x) _ None) as [y|e]; cbn [bind]; [|discriminate].
+    intros H. inversion H; subst. apply (all_content_set _ st i s _ Hn Ha); [|first [reflexivity|exact Hi]]. cbn [sc_content].
+    apply Forall_app. split; [exact Hc|]. unfold content_lines. cbn [Nat.eqb]. apply lines_of_P, Ho.
+  - intros H. inversion H; subst. exact Ha.
+  - destruct (nth_error st i) as [s|] eqn:Hn; [|intros H; inversion H; subst; exact Ha].
+    destruct (all_content_nth _ st i s Hn Ha) as [Hc Hi].
+    destruct (sc_content s) as [|c0 cs] eqn:Ec; [intros H; inversion H; subst; exact Ha|]. rewrite <- Ec in *.
+    destruct n as [[|k]|]; cbn [bind].
+    + destruct (format f _ None) as [y|e]; cbn [bind]; [|discriminate]. intros H. inversion H; subst.
+      apply (all_content_set _ st i s _ Hn Ha); [constructor|first [reflexivity|exact Hi]].
+    + destruct (measure w f _ 0) as [m|e]; cbn [bind]; [|discriminate].
+      destruct (format (fst m) _ None) as [y|e]; cbn [bind]; [|discriminate]. intros H. inversion H; subst.
+      apply (all_content_set _ st i s _ Hn Ha); [|first [reflexivity|exact Hi]]. cbn [sc_content]. apply firstn_P, Hc.
+    + destruct (format f _ None) as [y|e]; cbn [bind]; [|discriminate]. intros H. inversion H; subst.
+      apply (all_content_set _ st i s _ Hn Ha); [constructor|first [reflexivity|exact Hi]].
+  - subst n. destruct (nth_error st i) as [s|] eqn:Hn; intros H; inversion H; subst; [|exact Ha].
+    destruct (all_content_nth _ st i s Hn Ha) as [Hc Hi]. apply (all_content_set _ st i s _ Hn Ha); [exact Hc|reflexivity].
+Qed.
+Lemma step_content w st f o st' f' es : plain_op o -> all_content (Forall plain_char) st ->
+  sstep w st f o = Ok (st', f', es) -> all_content (Forall plain_char) st'.
+Proof.
+  intros Ho Ha. destruct o as [|i text nl|i text|i n|i n]; try apply (step_ansi_content w st f _ st' f' es Ho Ha).
+  cbn [sstep]. destruct (sstep_ansi w st f (SClear i None)) as [[[st1 f1] e1]|e] eqn:E1; cbn [bind fst snd]; [|discriminate].
+  pose proof (step_ansi_content w st f (SClear i None) st1 f1 e1 I Ha E1) as H1.
+  destruct (sstep_ansi w st1 f1 (SWrite i text true)) as [[[st2 f2] e2]|e] eqn:E2; cbn [bind fst snd]; [|discriminate].
+  intros H. inversion H; subst. apply (step_ansi_content w st1 f1 (SWrite i text true) _ _ _ Ho H1 E2).
+Qed.
+Lemma run_content w ops : forall st f st' f' es, Forall plain_op ops -> all_content (Forall plain_char) st ->
+  srun true w st f ops = Ok (st', f', es) -> all_content (Forall plain_char) st'.
+Proof.
+  induction ops as [|o r IH]; intros st f st' f' es Ho Ha; cbn [srun]; [intros H; inversion H; subst; exact Ha|].
+  inversion Ho as [|? ? Ho1 Hor]; subst.
+  destruct (sstep w st f o) as [[[st1 f1] e1]|e] eqn:E1; cbn [bind fst snd]; [|discriminate].
+  destruct (srun true w st1 f1 r) as [[[st2 f2] e2]|e] eqn:E2; cbn [bind fst snd]; [|discriminate].
+  intros H. inversion H; subst. apply (IH st1 f1 _ _ _ Hor (step_content w st f o st1 f1 e1 Ho1 Ha E1) E2).
+Qed.
+
+(* the rows of the raw content lines *)
+Definition plain_rows (w : nat) (st : secs) : list (list N) := flat_map (fun s => flat_map (fill w []) (sc_content s)) st.
+Definition plain_screen (w : nat) (st : secs) : term := scr (plain_rows w st).
+Lemma plain_stacked w sty st : all_content (Forall plain_char) st -> stacked w sty st = plain_rows w st.
+Proof.
+  unfold stacked, plain_rows, sec_rows, vrows, line_rows, all_content. induction 1 as [|s r [Hs _] Hr IH]; cbn [flat_map]; [reflexivity|].
+  rewrite IH. f_equal. clear -Hs. induction Hs as [|l ls Hl Hls IH]; cbn [flat_map]; [reflexivity|]. now rewrite IH, (plain_vis sty l Hl).
+Qed.
+Lemma screen_is_stack_plain_lemma w : 1 <= w -> forall f0 ops, is_ansi f0 -> f_stack f0 = [] -> Forall plain_op ops ->
+  exists st f es, srun true w [] f0 ops = Ok (st, f, es) /\
+    feed w term_init es = plain_screen w st /\
+    Forall (fun s => sc_lines s = length (flat_map (fill w []) (sc_content s)) /\ sc_indent s = 0) st.
+Proof.
+  intros w_pos f0 ops Hk Hs Hp.
+  destruct (screen_is_stack_lemma w w_pos f0 ops Hk Hs (plain_ops_good (f_styles f0) ops Hp))
+    as (st & f & es & E & Ht & Hok & _).
+  pose proof (run_content w ops [] f0 st f es Hp (Forall_nil _) E) as Hc.
+  exists st, f, es. split; [exact E|]. split.
+  - rewrite Ht. unfold screen, plain_screen. now rewrite (plain_stacked w (f_styles f0) st Hc).
+  - unfold all_content in Hc. rewrite Forall_forall in *. intros s Hin. destruct (Hok s Hin) as [Hl _]. destruct (Hc s Hin) as [Hpl Hi].
+    split; [|exact Hi]. rewrite Hl. unfold sec_rows, vrows, line_rows. f_equal.
+    clear -Hpl. induction Hpl as [|l ls Hl Hls IH]; cbn [flat_map]; [reflexivity|]. now rewrite IH, (plain_vis _ l Hl).
+Qed.
+
+(* ---------- 10. without ANSI support: no control codes at all, only appended text ---------- *)
 Definition plain_emit (e : emit) : bool := match e with Ch _ | Nl => true | _ => false end.
 Lemma emits_of_text_plain s : forallb plain_emit (emits_of_text s) = true.
 Proof. unfold emits_of_text. induction s as [|c r IH]; cbn; [reflexivity|]. destruct (N.eqb c LF); cbn; exact IH. Qed.
-Lemma plain_degrades_lemma ops : forall st, forallb plain_emit (snd (srun false w st ops)) = true.
+Lemma write_plain_emits f n text nl x : write_plain f n text nl = Ok x -> forallb plain_emit (snd x) = true.
 Proof.
-  induction ops as [|o r IH]; intros st; cbn [srun]; [reflexivity|].
-  destruct (sstep_plain st o) as [st1 e1] eqn:E1. specialize (IH st1). destruct (srun false w st1 r) as [st2 e2].
-  cbn [snd] in *. rewrite forallb_app, IH, andb_true_r.
-  destruct o; cbn in E1; inversion E1; subst; cbn; rewrite ?forallb_app, ?emits_of_text_plain; try reflexivity.
-  destruct new_line; reflexivity.
+  unfold write_plain. destruct (remove_format f _) as [y|e]; cbn [bind]; [|discriminate]. intros H. inversion H; subst. cbn [snd].
+  rewrite forallb_app, emits_of_text_plain. destruct nl; reflexivity.
 Qed.
-End W.
+Lemma plain_degrades_lemma w ops : forall st f r, srun false w st f ops = Ok r -> forallb plain_emit (snd r) = true.
+Proof.
+  induction ops as [|o r IH]; intros st f x; cbn [srun]; [intros H; inversion H; reflexivity|].
+  destruct (sstep_plain st f o) as [[[st1 f1] e1]|e] eqn:E1; cbn [bind fst snd]; [|discriminate].
+  destruct (srun false w st1 f1 r) as [[[st2 f2] e2]|e] eqn:E2; cbn [bind fst snd]; [|discriminate].
+  intros H. inversion H; subst. cbn [snd]. rewrite forallb_app. specialize (IH st1 f1 _ E2). cbn [snd] in IH. rewrite IH, Bool.andb_true_r.
+  destruct o as [|i text nl|i text|i n|i n]; cbn [sstep_plain] in E1.
+  - inversion E1; reflexivity.
+  - destruct (nth_error st i); [|inversion E1; reflexivity].
+    destruct (write_plain f _ text nl) as [y|e] eqn:EW; cbn [bind] in E1; [|discriminate]. inversion E1; subst. apply (write_plain_emits _ _ _ _ _ EW).
+  - destruct (nth_error st i); [|inversion E1; reflexivity].
+    destruct (write_plain f _ text true) as [y|e] eqn:EW; cbn [bind] in E1; [|discriminate]. inversion E1; subst. apply (write_plain_emits _ _ _ _ _ EW).
+  - inversion E1; reflexivity.
+  - destruct (nth_error st i); inversion E1; reflexivity.
+Qed.
+
+(* ---------- 11. one good line ---------- *)
+Lemma good_line_shown_lemma w sty f l : fmt_ok sty f -> good_lineb sty l = true ->
+  (exists f', remove_format f l = Ok (f', vis sty l) /\ fmt_ok sty f') /\
+  (exists f' a, format f l None = Ok (f', a) /\ fmt_ok sty f' /\ strip_sgr a = vis sty l) /\
+  (exists f', measure w f [l] 0 = Ok (f', count_rows w (vis sty l)) /\ fmt_ok sty f').
+Proof.
+  intros Hf Hg. destruct (good_line_ok sty l Hg) as (H1 & H2 & H3). split; [|split].
+  - apply (remove_format_ok sty f l _ Hf H3).
+  - apply (deco_of_plain sty l _ f H2 H3 Hf).
+  - cbn [measure]. destruct (remove_format_ok sty f l _ Hf H3) as (f' & E & Hf'). rewrite E. cbn [bind fst snd]. eauto.
+Qed.
